@@ -22,6 +22,28 @@ pub static PAUSED: std::sync::atomic::AtomicBool = std::sync::atomic::AtomicBool
 pub type Sink = Box<dyn FnMut(Sys) + Send>;
 static SINK: Mutex<Option<Sink>> = Mutex::new(None);
 
+/// called after every msync of the library returned (outside the sink): lets the harness run another
+/// pipeline stage on a second thread at exactly this point, the way the commit worker runs while the
+/// cleanup worker is flushing tables
+pub type Hook = Box<dyn FnMut() + Send>;
+static AFTER_MSYNC: Mutex<Option<Hook>> = Mutex::new(None);
+pub fn set_after_msync(h: Option<Hook>) {
+	*AFTER_MSYNC.lock().unwrap() = h;
+}
+fn after_msync() {
+	if PAUSED.load(std::sync::atomic::Ordering::SeqCst) {
+		return
+	}
+	let taken = AFTER_MSYNC.lock().unwrap().take();
+	if let Some(mut h) = taken {
+		h();
+		let mut g = AFTER_MSYNC.lock().unwrap();
+		if g.is_none() {
+			*g = Some(h);
+		}
+	}
+}
+
 pub fn set_sink(s: Option<Sink>) {
 	*SINK.lock().unwrap() = s;
 }
@@ -81,7 +103,9 @@ pub extern "C" fn msync(addr: *mut libc::c_void, len: libc::size_t, flags: libc:
 	if let Some((path, off)) = map_path(addr as usize) {
 		emit(Sys::SyncMap(path, off, len));
 	}
-	unsafe { libc::syscall(libc::SYS_msync, addr, len, flags) as libc::c_int }
+	let r = unsafe { libc::syscall(libc::SYS_msync, addr, len, flags) as libc::c_int };
+	after_msync();
+	r
 }
 
 #[no_mangle]
